@@ -4,6 +4,7 @@ import (
 	"crypto/sha256"
 	"crypto/x509"
 	"fmt"
+	"net/http"
 	"os"
 	"path/filepath"
 	"sort"
@@ -348,19 +349,27 @@ func c20Special(chk *fw.Check) int {
 					return
 				}
 				vsched.Drain()
-				// the next download takes 5 s: the tick starts the refresh, Cleanup comes while it is downloading
-				net.Routes[urlA] = &world.Behaviour{Label: "v2-slow", Body: v2, Delay: 5 * time.Second}
-				hits := len(net.Hits)
+				// Cleanup comes while the refresh started by the tick is in the middle of its download (the origin's handler
+				// performs it: at that point the refresh holds no lock of the repository), the download then completes
+				cleaned := false
+				net.Routes[urlA] = &world.Behaviour{Label: "v2-cleanup-meanwhile", Fn: func(req *http.Request, body []byte) (int, []byte, error) {
+					if !cleaned {
+						cleaned = true
+						if err := w.Chk.Cleanup(); err != nil {
+							chk.Violation("C20|cleanup-error|"+sig, err.Error(), nil)
+						}
+					}
+					return 200, v2, nil
+				}}
 				vsched.Advance(10*time.Minute + time.Second)
-				if len(net.Hits) == hits {
+				vsched.Drain()
+				if !cleaned {
 					chk.Violation("C20|harness|no-refresh-started|"+sig, "the tick did not start a download", nil)
 					return
 				}
-				if err := w.Chk.Cleanup(); err != nil {
-					chk.Violation("C20|cleanup-error|"+sig, err.Error(), nil)
+				if os.Getenv("C20DBG") != "" {
+					fmt.Println("DBG", sig, "open", vleveldb.OpenPaths())
 				}
-				vsched.Advance(time.Minute) // the download ends, the refresh runs to its end
-				vsched.Drain()
 				if live, sites := vsched.Live(); live > 0 {
 					chk.Violation("C20|background-activity-after-cleanup", fmt.Sprintf("%s Cleanup during a refresh: %d goroutine(s) still alive: %v", sig, live, sites), nil)
 				}
